@@ -125,7 +125,7 @@ def _adjudicate(check: core.Check, per_case: list[list[dict]], label: str, *, mo
     # batches must not split a Begin..End group
     batches: list[list[dict]] = [[]]
     for lines in per_case:
-        if len(batches[-1]) + len(lines) > 40000:
+        if len(batches[-1]) + len(lines) > 12000:
             batches.append([])
         batches[-1].extend(lines)
     all_verdicts: dict[Any, list[str]] = {}
@@ -306,13 +306,15 @@ def run(check: core.Check) -> None:
         "enable": (R, "SuppressionRoutes.enable.cfg" if quick else "SuppressionRoutes.enable3.cfg", False, 4 if quick else 16),
         "catchflat": (R, "SuppressionRoutes.catchflat2.cfg" if quick else "SuppressionRoutes.catchflat3.cfg", False, 8),
         "catchblock": (R, "SuppressionRoutes.catchblockq.cfg" if quick else "SuppressionRoutes.catchblock.cfg", quick, 8),
+        "struct": (R, "SuppressionRoutes.struct3.cfg" if quick else "SuppressionRoutes.struct4.cfg", False, 8),
     }
     sens = {
-        "enablebug_disable_before_enable": "EEnabledOK",
-        "enablebug_config_beats_command_line": "EEnabledOK",
-        "enablebug_other_module_applies": "EEnabledOK",
-        "catchbug_caught_marks_used": "RProjectionOK",
-        "catchbug_drop_reemits": "RChainOnce",
+        "enablebug_disable_before_enable": {"EEnabledOK"},
+        "enablebug_config_beats_command_line": {"EEnabledOK"},
+        "enablebug_other_module_applies": {"EEnabledOK"},
+        "catchbug_caught_marks_used": {"RProjectionOK"},
+        # violates both; which one TLC's workers report first is not deterministic
+        "catchbug_drop_reemits": {"RChainOnce", "RProjectionOK"},
     }
     for name in sens:
         jobs[name] = (R, f"SuppressionRoutes.{name}.cfg", False, 4)
@@ -323,7 +325,7 @@ def run(check: core.Check) -> None:
 
     with ThreadPoolExecutor(3 if quick else 2) as ex:
         results = dict(zip(jobs, ex.map(tlc, jobs.values())))
-    for name in ("base", "base-emit", "enable", "catchflat", "catchblock"):
+    for name in ("base", "base-emit", "enable", "catchflat", "catchblock", "struct"):
         core.require_ok(results[name], f"C11 design run {name} ({jobs[name][1]})")
         check.add_tlc(f"{name}:{jobs[name][1]}", results[name])
     if quick:
@@ -332,11 +334,12 @@ def run(check: core.Check) -> None:
     if results["pinned"].violated != "ProjectionOK":
         raise core.MachineryError("sensitivity self-test failed: pinned lines[-1] wrap not rejected by the model")
     for name, inv in sens.items():
-        if results[name].violated != inv:
+        check.add_tlc(f"sensitivity:{name}", results[name], violated=results[name].violated)
+        if results[name].violated not in inv:
             raise core.MachineryError(f"sensitivity self-test failed: seeded model defect {name} did not violate {inv} "
                                       f"(violated: {results[name].violated}, error: {results[name].error})")
     check.cov["sensitivity"] = ("model with the pinned lines[lineno-2] wrap violates ProjectionOK; the seeded model defects "
-                                + ", ".join(sens) + " violate " + ", ".join(sorted(set(sens.values()))) + ", as expected")
+                                + ", ".join(f"{n} -> {results[n].violated}" for n in sens) + ", as expected")
 
     # ---- 2. base slice, S->C: replay of the exhaustive smaller bound
     cases = core.emitted_json(results["base-emit"])
@@ -352,7 +355,8 @@ def run(check: core.Check) -> None:
         "override x other-module override) for a default-on and a default-off code (quick; + unused_ignore thorough); "
         "catch = every flat file of <=2 (quick) / 3 (thorough) lines over diags {c1,c4,c2,c1+c4} x comments "
         "{bare,c4,c3,multi} and every extension by <=2 lines of the three `with assert_error():` block heads, x requests "
-        "over {c4, unused_ignore}; structure + command line = TLC simulation of files of 3..8 lines over 14 shapes, 14 "
+        "over {c4, unused_ignore}; structure = every file of <=3 (quick) / 4 (thorough) lines over the 14 shapes, diags "
+        "{c1,c6,c1+c6}, comments {bare,c1}, unused_ignore on/off; structure + command line = TLC simulation of files of 3..8 lines over 14 shapes, 14 "
         "diagnostic sets, 8 comment forms x requests over all 7 codes, replayed through main() two files per run; "
         "non-trivial = has both a diagnostic and an ignore comment"
     )
@@ -371,9 +375,14 @@ def run(check: core.Check) -> None:
     flat = core.emitted_json(results["catchflat"])
     block = core.emitted_json(results["catchblock"])
     check.cov["routes_cases"] = {"catch-flat": len(flat), "catch-block": len(block)}
-    lim = 2500 if quick else 200000
+    lim = 2000 if quick else 200000
     flat_s = flat if len(flat) <= lim else rnd.sample(flat, lim)
     block_s = block if len(block) <= lim else rnd.sample(block, lim)
+    struct = core.emitted_json(results["struct"])
+    check.cov["routes_cases"]["structure-exhaustive"] = len(struct)
+    check.cov["routes_replayed_exhaustively"] = {"catch-flat": len(flat) <= lim, "catch-block": len(block) <= lim,
+                                                 "structure": len(struct) <= lim}
+    judge_ctor(check, struct if len(struct) <= lim else rnd.sample(struct, lim), "routes-structure/constructor-settings")
     judge_ctor(check, flat_s, "routes-catch-flat/constructor-settings")
     per_block = judge_ctor(check, block_s, "routes-catch-block/constructor-settings")
     selftest_trace(check, per_block)
